@@ -87,6 +87,41 @@ def run(tier, rep):
     # ---- (b) families + random
     progs = families.all_families(tier, seed())
     fam_cases, counts = famcheck.run_families("C01", rep, progs, "c01")
+    # ---- (c) pass by pass: the Mono, Lift and ANF terms of every accepted program mean what the program means (IRSem.tla)
+    import irsem
+    todo = {}
+    expect = {}
+    for c in cases:
+        if c["compile"]["verdict"] == "ok":
+            todo[c["id"]] = c["path"]
+            expect[c["id"]] = ("failed" if c["name"] in RECORDED_FAILURE else "ok", None if c["name"] in RECORDED_FAILURE else c["expect_out"], c["id"])
+    for c in fam_cases:
+        o = c.get("oracle")
+        if c["compile"]["verdict"] == "ok" and o and o["status"] in ("ok", "failed"):
+            todo["fam:" + c["id"]] = c["path"]
+            expect["fam:" + c["id"]] = (o["status"], o["out"], c["ident"])
+    answers = gv_parallel("compile", [{"id": i, "path": p, "ir_json": True} for i, p in todo.items()])
+    stage_out, st3, skipped = irsem.run_stages([(a["id"], a["ir"]) for a in answers if a["verdict"] == "ok"], "c01-irsem")
+    stage_counts = {}
+    for i, stages in stage_out.items():
+        status, out, ident = expect[i]
+        for stg in ("mono", "lift", "anf"):
+            r = stages[stg]
+            if r["status"] in ("unsupported", "inconclusive"):
+                key = "outside-modelled-subset"
+            elif r["status"] == status and (out is None or r["out"] == out):
+                key = "agree"
+            else:
+                key = "differ"
+                rep.violation(f"ir:{stg}:{ident}", {"stage": stg, "expected_status": status, "expected_out": (out or b"").decode("utf-8", "replace")[:400],
+                                                    "stage_status": r["status"], "stage_why": r["why"], "stage_out": r["out"].decode("utf-8", "replace")[:400]},
+                              replay={"path": todo[i], "stage": stg})
+            stage_counts[stg + ":" + key] = stage_counts.get(stg + ":" + key, 0) + 1
+    rep.coverage["ir_stage_outcomes"] = stage_counts
+    rep.coverage["ir_programs_too_deep_for_json_reader"] = skipped
+    if stage_counts.get("mono:agree", 0) < 300 or stage_counts.get("anf:agree", 0) < 300:
+        raise ToolError(f"vacuity: IR stages agreed on too few programs: {stage_counts}")
+    rep.coverage["states"] += st3
     rep.coverage["programs"] += len(cases)
     rep.coverage["disagreements_checked"] += ok
     rep.coverage["states"] += st["states"] + st0["states"]
